@@ -1,3 +1,4 @@
 (* entry points bound to the generated constants *)
 From Verif Require Import Base.Sx Model.Batcher Model.BatcherGlue Gen.BatcherGen.
 Definition c08_entry (which : Z) (case obs : sx) : verdict := c08_run batcher_atomic_push case obs.
+Definition c09_entry (which : Z) (case obs : sx) : verdict := c09_run batcher_atomic_push case obs.
